@@ -1,4 +1,5 @@
 import Gtree.Lemmas.SourceRefines
+import Gtree.Lemmas.HeapBuilder
 import Gtree.Lemmas.HeapGrower
 import Gtree.Lemmas.HeapSpread
 import Gtree.Lemmas.Output
@@ -173,4 +174,20 @@ theorem C01_printer_is_the_source (dg : SrcH.defaultGrowerSimple) (ds : SrcH.def
   refine ⟨h', hrun, ?_⟩
   rw [SrcH.spread_heap ds h' ts w rs fuel (SrcH.ReprRoots_shape hs ts rs hr) (by omega), hrd, List.map_flatMap]
   rfl
+end Gtree
+
+namespace Gtree
+/-- Tie to the source, pointer code included (heap mode, regenerated on every run): ONE STEP OF THE TREE BUILDER,
+    `stack.dfs` of stack.go (push / pop / size over container/list; `isDirectlyUnder`, `findChildByText`, `addChild`,
+    `setParent` of node.go), translated over an explicit heap with the stack's list as a world component.  For every
+    heap, every stack of non-nil pointers (root first) and every new node: the open nodes are popped until the one on
+    top is exactly one level above the new node (`popTo`); then, if it has a child of the new node's name — the FIRST
+    such child — nothing is written and that child is pushed back with its parent: equally named siblings under one
+    parent are a single node; otherwise the new node becomes its last child, gets it as parent, and is pushed. -/
+theorem C01_dfs_is_the_source (h : SrcH.Heap) (stk : List Go.Ptr) (c : Go.Ptr) (hne : ∀ p ∈ stk, p ≠ 0) :
+    SrcH.stack.dfs h stk c =
+      (match SrcH.popTo h (h c).hierarchy stk.reverse with
+       | none => (h, [], false)
+       | some (p, rest) => SrcH.attach h c p rest) :=
+  SrcH.dfs_spec h stk c hne
 end Gtree
